@@ -843,6 +843,10 @@ func init() {
 			for i := 0; i < pre; i++ {
 				p.Ops[i].C = 0
 			}
+			if n%8 == 3 {
+				// updates and reads through the adapter Main puts in front of the witness (what feeders and the distributor see)
+				p.Cfg.Extra = map[string]int64{"via_adapter": 1}
+			}
 			if n%8 == 7 {
 				// storage errors instead of contention: one client on SQLite with faults inside the database driver; an update the
 				// store failed must have no effect, one it acknowledged must not be lost
